@@ -36,3 +36,24 @@ func Gen(t *rapid.T) *Case {
 	}
 	return c
 }
+
+var fFaults = []string{"", "", "", "exec-fail", "reply-lost", "cancel-after-exec", "cancel-after-exec", "commit-fail", "cancelled"}
+
+func GenInProc(t *rapid.T) *FCase {
+	c := &FCase{}
+	nc := rapid.IntRange(1, 3).Draw(t, "cycles")
+	for i := 0; i < nc; i++ {
+		n := rapid.IntRange(1, 10).Draw(t, "nops")
+		var ops []FOp
+		for j := 0; j < n; j++ {
+			op := FOp{K: rapid.SampledFrom([]string{"append", "append", "append", "save"}).Draw(t, "k")}
+			if op.K == "save" {
+				op.Sub = rapid.SampledFrom([]string{"A", "B"}).Draw(t, "sub")
+			}
+			op.Fault = rapid.SampledFrom(fFaults).Draw(t, "fault")
+			ops = append(ops, op)
+		}
+		c.Cycles = append(c.Cycles, ops)
+	}
+	return c
+}
